@@ -26,8 +26,9 @@ COQCHK = ["Properties.C10"]
 RULE = ("pairs of nested values (depth <= 3, width <= 4; atoms None/bool/int/half-integer float/str/bytes incl. quotes, backslash, "
         "newline, tab, DEL, Latin-1 and non-UTF-8 bytes; list/tuple/dict/set/frozenset): 30% edit scripts of 1-3 edits, 15% dict-rooted "
         "values with 1-4 key add/delete/rekey/replace edits, 25% atom "
-        "lists related by insert/delete/replace/move/dup planted under 0-2 levels, 10% independent values, 10% 2-4 sets at different paths "
-        "(dict values / list items / nested) each gaining and losing members, 10% one planted set pair; plus 5 fixed multi-container pairs; "
+        "lists related by insert/delete/replace/move/dup planted under 0-2 levels, 10% independent values, 6% 2-4 sets at different paths "
+        "(dict values / list items / nested) each gaining and losing members, 6% ONE set / frozenset object shared by 2-3 places of t1 (and sometimes of t2) "
+        "with member changes at each place, 8% one planted set pair; plus 5 fixed multi-container pairs and 3 fixed shared-set pairs; "
         "x {ordered, ignore_order, ignore_order+report_repetition} x verbose_level {0,1,2} x view {text,tree} "
         "(ordered mode also x threshold_to_diff_deeper {0.33, 0}). Non-trivial = non-empty tree; distinct by (t1, t2, mode, verbose).")
 TRUSTED = ["the JSON text encoder (json / orjson) and json.loads: the model stops at the JSON-able value that json.dumps walks; the check parses to_json() back",
@@ -35,7 +36,7 @@ TRUSTED = ["the JSON text encoder (json / orjson) and json.loads: the model stop
            "the doubly linked DiffLevel chain is abstracted to its two key sequences and leaf objects: the up/down symmetry and the identity (`is`) of node objects with the inputs' sub-objects are checked by the chain walk on every generated case, not proved",
            "ignore_order / report_repetition presentations are covered by the direct oracle and by the theorems that are parametric in the entry list; the correspondence cases are ordered-mode runs",
            "Python repr() of str for code points >= 256 (assumed printable) and of floats >= 1e16 is outside the model; generators stay below"]
-ASSUMPTIONS = ["verbose_level in {0,1,2}", "dict/set inputs satisfy Python's representation invariant; values are tree-shaped; no bytes dict keys (finding F5)"]
+ASSUMPTIONS = ["verbose_level in {0,1,2}", "dict/set inputs satisfy Python's representation invariant; values are tree-shaped except that one set / frozenset object may sit at several places; no bytes dict keys (finding F5)"]
 
 MARK = "\x01<S>\x02"
 HDR = D.MODEL_HDR + "\nFrom DD Require Import Views.ViewsModel Views.ViewsShow."
@@ -212,6 +213,43 @@ def text_pairs(res):
 NP = None
 
 
+def srepr(v):
+    """repr() that keeps the sharing of set / frozenset objects: a set object that occurs more than once is bound
+    by an assignment expression at its first occurrence ([0, (s0 := {1, 2}), s0]); eval() rebuilds the aliasing"""
+    count = {}
+
+    def scan(x):
+        if isinstance(x, (set, frozenset)):
+            count[id(x)] = count.get(id(x), 0) + 1
+        elif isinstance(x, (list, tuple)):
+            for y in x:
+                scan(y)
+        elif isinstance(x, dict):
+            for y in x.values():
+                scan(y)
+    scan(v)
+    if not any(n > 1 for n in count.values()):
+        return repr(v)
+    names = {}
+
+    def go(x):
+        if isinstance(x, (set, frozenset)):
+            if count[id(x)] > 1:
+                if id(x) in names:
+                    return names[id(x)]
+                names[id(x)] = "s%d" % len(names)
+                return "(%s := %r)" % (names[id(x)], x)
+            return repr(x)
+        if isinstance(x, list):
+            return "[" + ", ".join(go(y) for y in x) + "]"
+        if isinstance(x, tuple):
+            return "(" + ", ".join(go(y) for y in x) + ("," if len(x) == 1 else "") + ")"
+        if isinstance(x, dict):
+            return "{" + ", ".join("%r: %s" % (k, go(y)) for k, y in x.items()) + "}"
+        return repr(x)
+    return go(v)
+
+
 def is_np(x):
     return x is D.notpresent()
 
@@ -305,7 +343,7 @@ def check_mode(ctx, a, b, mode, kw, cfg):
     runs = {}
 
     def bad(clause, what, **extra):
-        case = dict(t1=repr(a), t2=repr(b), mode=mode, clause=clause, **cfg)
+        case = dict(t1=srepr(a), t2=srepr(b), mode=mode, clause=clause, **cfg)
         case.update(extra)
         ctx.fail(case, "%s: %s" % (clause, what))
 
@@ -665,9 +703,12 @@ def gen_pairs(ctx, n):
         elif r < 0.8:
             t1, t2 = gen_val(rng, 3, 3), gen_val(rng, 3, 3)
             ctx.count("gen:independent")
-        elif r < 0.9:
+        elif r < 0.86:
             t1, t2 = gen_multi_sets(rng)
             ctx.count("gen:multi_sets")
+        elif r < 0.92:
+            t1, t2 = gen_shared_sets(rng)
+            ctx.count("gen:shared_set_object")
         else:
             s1 = gen_val(rng, 1, 4, kinds="S")
             s2 = gen_val(rng, 1, 4, kinds="S")
@@ -707,6 +748,54 @@ def gen_multi_sets(rng):
         return ({"p": {keys[0]: olds[0]}, "q": [olds[1]], "r": tuple(olds[2:])},
                 {"p": {keys[0]: news[0]}, "q": [news[1]], "r": tuple(news[2:])})
     return ({keys[0]: olds[0], "l": [1, olds[1:]]}, {keys[0]: news[0], "l": [1, news[1:]]})
+
+
+def gen_shared_sets(rng):
+    """ONE set / frozenset OBJECT referenced at 2-3 places of t1 (records sharing a default set) whose counterparts in
+    t2 each gain and / or lose members; with probability 0.3 two places of t2 share one object as well
+    (after the independently seeded change C10-a: a per-object memo of the set's path in the text conversion)"""
+    pool = [1, 2, 3, 4, 5, "a", "b", "x y", "it's", None, 2.5, b"ab"]
+    base = set(rng.sample(pool, rng.randint(1, 4)))
+    n = rng.randint(2, 3)
+    direction = rng.choice(["gain", "lose", "mixed", "mixed"])
+    news = []
+    for _ in range(n):
+        new = set(base)
+        for _e in range(rng.randint(1, 2)):
+            m = rng.choice(pool)
+            lose = direction == "lose" or (direction == "mixed" and rng.random() < 0.5)
+            if lose and new:
+                new.discard(rng.choice(sorted(new, key=repr)))
+            elif not any(m == q for q in new):
+                new.add(m)
+        if new == base:
+            new = set(base) | {9}
+        news.append(new)
+    if rng.random() < 0.3:
+        news[1] = news[0]
+    if rng.random() < 0.25:
+        base = frozenset(base)
+        memo = {}
+        news = [memo.setdefault(id(x), frozenset(x)) for x in news]
+    olds = [base] * n
+    shape = rng.choice(["dict", "dict", "list", "records", "nested"])
+    keys = rng.sample(["a", "b", "c", 1, 2.5, None, "k k"], n)
+    if shape == "dict":
+        return dict(zip(keys, olds)), dict(zip(keys, news))
+    if shape == "list":
+        return [0] + olds, [0] + news
+    if shape == "records":
+        return ([{"id": i, "tags": o} for i, o in enumerate(olds)], [{"id": i, "tags": x} for i, x in enumerate(news)])
+    return ({"p": {keys[0]: olds[0]}, "q": [olds[1]], "r": tuple(olds[2:])},
+            {"p": {keys[0]: news[0]}, "q": [news[1]], "r": tuple(news[2:])})
+
+
+def shared_fixed_pairs():
+    """fixed pairs with one set object at two places of t1"""
+    s, f = {1, 2}, frozenset(["x"])
+    return [({"a": s, "b": s}, {"a": {1, 2, 3}, "b": {1, 2, 4}}),
+            ([s, s, s], [{1}, {2}, {1, 2, 5}]),
+            ({"u": {"tags": f}, "v": {"tags": f}}, {"u": {"tags": frozenset(["x", "y"])}, "v": {"tags": frozenset(["x", "z"])}})]
 
 
 FIXED_PAIRS = [
@@ -800,7 +889,7 @@ def replay_witnesses(ctx):
 
 
 def run(ctx):
-    pairs = FIXED_PAIRS + gen_pairs(ctx, 4500 if ctx.thorough else 400)
+    pairs = FIXED_PAIRS + shared_fixed_pairs() + gen_pairs(ctx, 4500 if ctx.thorough else 400)
     cases, iocases, repcases = [], [], []
     for t1, t2 in pairs:
         one_pair(ctx, t1, t2, cases, iocases=iocases, repcases=repcases)
